@@ -30,8 +30,9 @@ import GV.Model.StateMachines
     evidence (drafts), and are stated as such in the report.
   * local-tx-monitor: the spec has one busy state per request kind
     (StBusy NextTx / HasTx / GetSizes); a reply is valid only in the busy state of
-    its own request.  MsgGetMeasures (added for NodeToClientV_20) is not part of the
-    implementation's version range and is not encoded.
+    its own request.  From NodeToClientV_20 on the protocol also has MsgGetMeasures /
+    MsgReplyGetMeasures (a fourth busy state): `localTxMonitorV20`.  gouroboros negotiates
+    node-to-client versions up to 21 with a single local-tx-monitor state map.
 
   Agency: 1 = client, 2 = server, 0 = nobody (terminal).  Symbols are
   (wire tag, variant); variant distinguishes what the spec treats as different
@@ -162,6 +163,15 @@ def localTxMonitor : Machine := mk "local-tx-monitor" 1
     tr 4 6 3,    -- MsgReplyNextTx   only answers MsgNextTx
     tr 5 8 3,    -- MsgReplyHasTx    only answers MsgHasTx
     tr 6 10 3 ]  -- MsgReplyGetSizes only answers MsgGetSizes
+
+/-- local-tx-monitor as of NodeToClientV_20: additionally MsgGetMeasures (tag 11) answered by
+    MsgReplyGetMeasures (tag 12) in its own busy state. -/
+def localTxMonitorV20 : Machine := mk "local-tx-monitor (NodeToClientV_20+)" 1
+  [st 1 "StIdle" 1, st 2 "StAcquiring" 2, st 3 "StAcquired" 1,
+   st 4 "StBusy NextTx" 2, st 5 "StBusy HasTx" 2, st 6 "StBusy GetSizes" 2, st 8 "StBusy GetMeasures" 2,
+   st 7 "StDone" 0]
+  (localTxMonitor.trans ++ [ tr 3 11 8,     -- MsgGetMeasures
+                             tr 8 12 3 ])   -- MsgReplyGetMeasures
 
 /-! ### CIP-0137 -/
 def messageSubmissionV1 : Machine := mk "message-submission (CIP-0137)" 1
